@@ -695,3 +695,26 @@ Proof.
   eapply inv_run; [exact Hids | exact Hpos | | exact Hr].
   eapply inv_init; eauto.
 Qed.
+
+Lemma wf_run_kwf : forall descs root tree data tr k0 G0 k G,
+  defer_plan_wf descs root tree = true ->
+  init_state descs root tree data = (k0, G0) ->
+  run descs root tr k0 G0 = Some (k, G) -> kwf descs k.
+Proof.
+  intros descs root tree data tr k0 G0 k G Hwf Hi Hr.
+  unfold defer_plan_wf in Hwf.
+  apply andb_true_iff in Hwf. destruct Hwf as [Hwf _].
+  apply andb_true_iff in Hwf. destruct Hwf as [Hwf _].
+  apply andb_true_iff in Hwf. destruct Hwf as [Hwf _].
+  apply andb_true_iff in Hwf. destruct Hwf as [Hwf _].
+  apply andb_true_iff in Hwf. destruct Hwf as [Hwf Hgn].
+  apply andb_true_iff in Hwf. destruct Hwf as [Hdw Hshape].
+  unfold descs_wf in Hdw. apply andb_true_iff in Hdw. destruct Hdw as [Hsorted Hall].
+  assert (Hids : NoDup (map dd_id descs)) by (apply sorted_N_NoDup; exact Hsorted).
+  assert (Hpos : forall d, In d descs -> 0 < dd_id d).
+  { intros d Hd. rewrite forallb_forall in Hall. specialize (Hall d Hd).
+    apply andb_true_iff in Hall. destruct Hall as [Hall _]. apply andb_true_iff in Hall. destruct Hall as [Hp _].
+    apply N.ltb_lt. exact Hp. }
+  eapply i_kwf. eapply inv_run; [exact Hids | exact Hpos | | exact Hr].
+  eapply inv_init; eauto.
+Qed.
